@@ -3,11 +3,13 @@ package thriftproto
 import (
 	"context"
 	"encoding/binary"
+	"io"
 	"sync"
 
 	"git.apache.org/thrift.git/lib/go/thrift"
 	"github.com/henrylee2cn/erpc/v6"
 	"github.com/henrylee2cn/erpc/v6/codec"
+	"github.com/henrylee2cn/erpc/v6/socket"
 	"github.com/henrylee2cn/erpc/v6/utils"
 	"github.com/henrylee2cn/goutil"
 )
@@ -135,7 +137,7 @@ func (t *tBinaryProto) binaryUnpack(m erpc.Message) error {
 		return err
 	}
 
-	bodyBytes, err := t.rProtocol.ReadBinary()
+	bodyBytes, err := readBinary(t.rProtocol)
 	if err != nil {
 		return err
 	}
@@ -164,6 +166,41 @@ func (t *tBinaryProto) binaryUnpack(m erpc.Message) error {
 	}
 
 	return m.SetSize(uint32(t.rwCounter.Readed()))
+}
+
+// readBinary reads the body field. The thrift library's ReadBinary sizes its buffer from
+// the length announced on the wire (up to 2 GiB announced by a frame of a few bytes), so
+// the length is read and checked against the message size limit here first.
+func readBinary(p *thrift.THeaderProtocol) ([]byte, error) {
+	var size int64
+	if ht, ok := p.Transport().(*thrift.THeaderTransport); ok && ht.Protocol() == thrift.THeaderProtocolCompact {
+		// compact protocol: the length is a varint32
+		for shift := uint(0); ; shift += 7 {
+			b, err := p.ReadByte()
+			if err != nil {
+				return nil, err
+			}
+			size |= int64(byte(b)&0x7f) << shift
+			if byte(b)&0x80 == 0 {
+				break
+			}
+			if shift >= 28 {
+				return nil, socket.ErrExceedMessageSizeLimit
+			}
+		}
+	} else {
+		v, err := p.ReadI32()
+		if err != nil {
+			return nil, err
+		}
+		size = int64(v)
+	}
+	if size < 0 || size > int64(socket.MessageSizeLimit()) {
+		return nil, socket.ErrExceedMessageSizeLimit
+	}
+	buf := make([]byte, size)
+	_, err := io.ReadFull(p.Transport(), buf)
+	return buf, err
 }
 
 // writeMessageBegin write a message header to the wire.
@@ -223,7 +260,15 @@ type BaseTTransport struct {
 // reads through a buffer of its own, and whatever it read ahead was counted as part of
 // the message being unpacked (the reported size then depended on what followed the
 // message on the connection and could exceed the size limit for a small message).
+//
+// The message size limit is enforced while reading, not only once the whole message
+// has been consumed: a frame announcing more than the limit is refused as soon as its
+// size word has arrived, and a message that goes on consuming frames is cut off when
+// the bytes read for it exceed the limit.
 func (t *BaseTTransport) Read(p []byte) (int, error) {
+	if uint64(t.ReadWriteCounter.Readed()) > uint64(socket.MessageSizeLimit()) {
+		return 0, socket.ErrExceedMessageSizeLimit
+	}
 	if t.unframed || len(p) == 0 {
 		return t.ReadWriteCounter.Read(p)
 	}
@@ -243,6 +288,9 @@ func (t *BaseTTransport) Read(p []byte) (int, error) {
 				// an unframed binary or compact message: its end is not announced
 				t.unframed = true
 			} else if size <= thrift.THeaderMaxFrameSize {
+				if uint64(size)+4 > uint64(socket.MessageSizeLimit()) {
+					return n, socket.ErrExceedMessageSizeLimit
+				}
 				t.frameRemain = int(size)
 			}
 		}
